@@ -38,6 +38,7 @@ type Program struct {
 	pureCache map[*ssa.Function]bool
 	regionMods map[*ssa.Function]*ModSet
 	specFuncs map[string]*SpecFunc
+	ghostFields map[string]Sort
 	globalInit map[string]*GlobalFact
 }
 
@@ -86,7 +87,7 @@ func LoadProgram(repo string) (*Program, error) {
 	if err != nil {
 		return nil, err
 	}
-	p := &Program{repo: repo, pkgs: pkgs, ssaPkgs: map[string]*ssa.Package{}, funcs: map[string]*ssa.Function{}, contracts: map[string]*Contract{}, ifaceImpl: map[string][]types.Type{}, invCache: map[string]*ModSet{}, inlCache: map[*ssa.Function]bool{}, specFuncs: map[string]*SpecFunc{}}
+	p := &Program{repo: repo, pkgs: pkgs, ssaPkgs: map[string]*ssa.Package{}, funcs: map[string]*ssa.Function{}, contracts: map[string]*Contract{}, ifaceImpl: map[string][]types.Type{}, invCache: map[string]*ModSet{}, inlCache: map[*ssa.Function]bool{}, specFuncs: map[string]*SpecFunc{}, ghostFields: map[string]Sort{}}
 	for _, pk := range pkgs {
 		for _, e := range pk.Errors {
 			p.loadErrs = append(p.loadErrs, e.Error())
@@ -187,7 +188,13 @@ type Clause struct {
 	Line int
 }
 
+type GhostSet struct {
+	LHS, RHS ast.Expr
+	Src      string
+}
+
 type Contract struct {
+	GhostSets []GhostSet // ghost field updates performed when the function returns
 	Name      string
 	Params    []string // declared parameter names (externs); for module functions names come from SSA
 	Clauses   []*Clause
@@ -357,6 +364,20 @@ func (p *Program) parseContractLines(file string, lines []string, lineNos []int,
 					cur.FreshAssigns = append(cur.FreshAssigns, x)
 				}
 			}
+		case "ghostset":
+			if err := flush(); err != nil {
+				return err
+			}
+			i := strings.Index(rest, "=")
+			if i < 0 {
+				return fmt.Errorf("%s:%d: ghostset needs `field(obj) = value`", file, lineNos[i])
+			}
+			lhs, err1 := parser.ParseExpr(strings.TrimSpace(rest[:i]))
+			rhs, err2 := parser.ParseExpr(strings.TrimSpace(rest[i+1:]))
+			if err1 != nil || err2 != nil {
+				return fmt.Errorf("%s:%d: bad ghostset %q", file, lineNos[i], rest)
+			}
+			cur.GhostSets = append(cur.GhostSets, GhostSet{LHS: lhs, RHS: rhs, Src: rest})
 		case "requires", "ensures", "assume", "loop":
 			if err := flush(); err != nil {
 				return err
